@@ -382,7 +382,35 @@ func (in *Interp) intrinsic(fn *ssa.Function, args []Value) (Value, bool) {
 		return nil, false // real code: allocates a fresh *errorString
 	case "fmt.Errorf":
 		in.stub(name)
-		return in.newErr(in.sprintf(args[0].(Str), args[1].(Slice))), true
+		e := in.newErr(in.sprintf(args[0].(Str), args[1].(Slice)))
+		// %w: remember the wrapped error for errors.Is / errors.Unwrap
+		if fs, ok := args[0].(Str).concrete(); ok {
+			ai := 0
+			for i := 0; i+1 < len(fs); i++ {
+				if fs[i] != '%' {
+					continue
+				}
+				j := i + 1
+				for j < len(fs) && (fs[j] == '0' || fs[j] == '-' || fs[j] == '+' || (fs[j] >= '1' && fs[j] <= '9') || fs[j] == '.') {
+					j++
+				}
+				if j >= len(fs) || fs[j] == '%' {
+					i = j
+					continue
+				}
+				if fs[j] == 'w' && ai < len(args[1].(Slice)) {
+					if w, ok := args[1].(Slice)[ai].(Iface); ok {
+						if in.wraps == nil {
+							in.wraps = map[*Value]Value{}
+						}
+						in.wraps[e.(Iface).v.(*Value)] = w
+					}
+				}
+				ai++
+				i = j
+			}
+		}
+		return e, true
 	case "fmt.Sprintf":
 		in.stub(name)
 		return in.sprintfStr(args[0].(Str), args[1].(Slice)), true
@@ -498,9 +526,38 @@ func (in *Interp) intrinsic(fn *ssa.Function, args []Value) (Value, bool) {
 		}
 		return s, true
 	case "errors.Is":
-		// pointer identity along a chain we do not model: only direct identity
+		// identity along the %w chain recorded by the fmt.Errorf model
 		in.stub(name)
-		return in.valEq(args[0], args[1]), true
+		cur := args[0]
+		for depth := 0; depth < 32; depth++ {
+			if in.valEq(cur, args[1]).isTrue() {
+				return B(true), true
+			}
+			ci, ok := cur.(Iface)
+			if !ok {
+				break
+			}
+			p, ok := ci.v.(*Value)
+			if !ok {
+				break
+			}
+			nx, ok := in.wraps[p]
+			if !ok {
+				break
+			}
+			cur = nx
+		}
+		return B(false), true
+	case "errors.Unwrap":
+		in.stub(name)
+		if ci, ok := args[0].(Iface); ok {
+			if p, ok := ci.v.(*Value); ok {
+				if nx, ok := in.wraps[p]; ok {
+					return nx, true
+				}
+			}
+		}
+		return Iface{}, true
 	}
 	return nil, false
 }
@@ -834,8 +891,20 @@ func (in *Interp) fmtArg(verb byte, a Value) Str {
 		if i.t == nil {
 			return mkStr("<nil>")
 		}
-		// error / Stringer values: opaque
+		// error / Stringer values: call their Error()/String() method
 		if _, isPtr := v.(*Value); isPtr {
+			for _, mname := range []string{"Error", "String"} {
+				ms := in.prog.MethodSets.MethodSet(i.t)
+				for k := 0; k < ms.Len(); k++ {
+					if sel := ms.At(k); sel.Obj().Name() == mname {
+						if fn := in.prog.MethodValue(sel); fn != nil {
+							if r, ok := in.call(fn, []Value{i.v}, nil).(Str); ok {
+								return r
+							}
+						}
+					}
+				}
+			}
 			return mkStr("<obj>")
 		}
 	}
@@ -999,6 +1068,12 @@ func (in *Interp) harnessAPI(fn *ssa.Function, args []Value) (Value, bool) {
 		return nil, true
 	case "ExploreSchedules":
 		in.schedExp = args[0].(*Term).isTrue()
+		return nil, true
+	case "PickRotation":
+		in.pickRot = in.concrete(args[0].(*Term), "PickRotation")
+		return nil, true
+	case "CoarseSchedules":
+		in.schedCoarse = args[0].(*Term).isTrue()
 		return nil, true
 	case "PreemptionBound":
 		in.preemptBound = in.concrete(args[0].(*Term), "PreemptionBound")
